@@ -924,6 +924,9 @@ func typeAssert(i *interpreter, instr *ssa.TypeAssert, itf iface) value {
 	return v
 }
 
+// dataPtr is the result of unsafe.SliceData / unsafe.StringData: the cells it points into.
+type dataPtr struct{ cells []value }
+
 // This variable is no longer used but remains to prevent build breakage.
 var CapturedOutput *bytes.Buffer
 
@@ -1089,9 +1092,32 @@ func callBuiltin(caller *frame, callpos token.Pos, fn *ssa.Builtin, args []value
 
 	case "ssa:deferstack":
 		return &caller.defers
+
+	// unsafe.String(unsafe.SliceData(b), len(b)) and unsafe.Slice(unsafe.StringData(s), len(s))
+	// are the standard library's zero-copy []byte <-> string idioms; the pointer is carried as
+	// the backing cells (pointer arithmetic on it is not supported).
+	case "SliceData":
+		s, _ := args[0].([]value)
+		return dataPtr{cells: s}
+	case "StringData":
+		return dataPtr{cells: strCells(args[0])}
+	case "String":
+		if dp, ok := args[0].(dataPtr); ok {
+			n := int(asInt64(args[1]))
+			return mkstr(dp.cells[:n])
+		}
+	case "Slice":
+		if dp, ok := args[0].(dataPtr); ok {
+			n := int(asInt64(args[1]))
+			return append([]value(nil), dp.cells[:n]...)
+		}
 	}
 
-	panic("unknown built-in: " + fn.Name())
+	where := ""
+	if caller != nil && caller.fn != nil {
+		where = " in " + caller.fn.String()
+	}
+	panic("unknown built-in: " + fn.Name() + where)
 }
 
 // widen widens a basic typed value x to the widest type of its
